@@ -64,6 +64,7 @@ type c15Vec struct {
 	Abs   bool     `json:"abs"`
 	Exts  []string `json:"exts"`
 	Hit   int      `json:"hit"`
+	Dev   bool     `json:"dev"`
 	Entry string   `json:"entry"`
 	Depth int      `json:"depth"`
 	Canon []string `json:"canon"`
@@ -129,7 +130,7 @@ func c15Sig(v *c15Vec) map[string]interface{} {
 		return false
 	}
 	return map[string]interface{}{"entry": v.Entry, "abs": v.Abs, "dotdot": has(".."), "dot": has("."),
-		"empty": has(""), "hit": v.Hit > 0}
+		"empty": has(""), "hit": v.Hit > 0, "dev": v.Dev}
 }
 
 // c15Run issues the spelling through the entry point on a real Set with recording
@@ -144,7 +145,7 @@ func c15Run(v *c15Vec) (obs []callRec, herr string) {
 		mem.Set(canon+v.Exts[v.Hit-1], "T")
 	}
 	set := jet.NewSet(&recLoader{mem, rec}, jet.WithCache(&recCache{m: map[string]*jet.Template{}, rec: rec}),
-		jet.WithTemplateNameExtensions(v.Exts))
+		jet.WithTemplateNameExtensions(v.Exts), jet.DevelopmentMode(v.Dev))
 	ref := refDir(v.Depth) + "zref"
 	q := `"` + name + `"`
 	var data interface{}
@@ -214,7 +215,7 @@ func c15Record(a []string) int {
 	segs := []string{"a", "b", ".", "..", "", "a", "b", ".."}
 	extLists := [][]string{{"", ".jet", ".html.jet", ".jet.html"}, {".jet"}, {".x", ""}, {""}}
 	for i := 0; i < n; i++ {
-		v := c15Vec{Entry: entries[rng.Intn(len(entries))], Abs: rng.Intn(3) == 0, Exts: extLists[rng.Intn(len(extLists))]}
+		v := c15Vec{Entry: entries[rng.Intn(len(entries))], Abs: rng.Intn(3) == 0, Dev: rng.Intn(3) == 0, Exts: extLists[rng.Intn(len(extLists))]}
 		for k, m := 0, 1+rng.Intn(8); k < m; k++ {
 			v.Segs = append(v.Segs, segs[rng.Intn(len(segs))])
 		}
@@ -248,7 +249,7 @@ func c15Record(a []string) int {
 			obs = []callRec{}
 		}
 		enc.Encode(map[string]interface{}{"entry": v.Entry, "abs": v.Abs, "segs": v.Segs, "depth": v.Depth,
-			"exts": v.Exts, "hit": v.Hit, "calls": obs})
+			"exts": v.Exts, "hit": v.Hit, "dev": v.Dev, "calls": obs})
 	}
 	return 0
 }
